@@ -157,3 +157,26 @@ Theorem tr_idx_sorts_and_length N dim : dim < N ->
   permute_axes (subchain_axes N dim) (tr_idx N dim) = map AMode (remove_nth dim (seq 0 N)) ++ [ABond dim; ABond (dim + 1)] /\
   length (tr_idx N dim) = N + 1.
 Proof. intros H. split; [now apply tr_idx_sorts_modes | now apply tr_idx_length]. Qed.
+
+(* ---- round 7: the semantic checker of the bookkeeping is sound: `true` means the Prop-level statements hold for that (N, dim) *)
+Lemma tr_axis_eqb_eq a b : tr_axis_eqb a b = true -> a = b.
+Proof. destruct a, b; simpl; intros H; try discriminate; apply Nat.eqb_eq in H; now subst. Qed.
+Lemma axes_eqb_eq : forall a b, axes_eqb a b = true -> a = b.
+Proof.
+  induction a as [|x a IH]; intros [|y b] H; simpl in H; try discriminate; [reflexivity|].
+  apply andb_prop in H. destruct H as [H1 H2]. f_equal; [now apply tr_axis_eqb_eq | now apply IH].
+Qed.
+Theorem tr_bookkeeping_ok_sound N dim chain row_modes tr_perm cols sol_rows sol_perm :
+  tr_bookkeeping_ok N dim chain row_modes tr_perm cols sol_rows sol_perm = true ->
+  permute_axes (chain_axes N chain) tr_perm = map AMode row_modes ++ map (bond N) cols /\
+  permute_axes (map (bond N) sol_rows ++ [AMode dim]) sol_perm = [bond N dim; AMode dim; bond N (dim + 1)] /\
+  map (bond N) cols = map (bond N) sol_rows /\ adjacent N chain = true.
+Proof.
+  unfold tr_bookkeeping_ok. intros H.
+  repeat (apply andb_prop in H; let H' := fresh "H" in destruct H as [H H']).
+  repeat split; try (now apply axes_eqb_eq); assumption.
+Qed.
+(* the model's own pieces pass the checker on a sample of orders (the universal statement about tr_idx is tr_idx_sorts_modes above) *)
+Lemma tr_bookkeeping_model_ok_sample :
+  forallb (fun N => forallb (fun dim => tr_bookkeeping_model_ok N dim) (seq 0 N)) (seq 2 6) = true.
+Proof. vm_compute. reflexivity. Qed.
